@@ -9,6 +9,8 @@ git -C /repo worktree add -q --detach "$wt" HEAD || exit 2
 trap 'git -C /repo worktree remove --force "$wt" >/dev/null 2>&1' EXIT
 pkgline=$(grep -m1 -o 'go test .*' "$d/demo_test.go")
 pkg=$(echo "$pkgline" | grep -o '\./[a-z/]*' | tail -1)
+# the repository's root package is written as a bare "."
+[ -z "$pkg" ] && echo "$pkgline" | grep -q ' \.$' && pkg="."
 runpat=$(echo "$pkgline" | sed -n "s/.*-run '\{0,1\}\([A-Za-z0-9_]*\)'\{0,1\}.*/\1/p")
 race=""; echo "$pkgline" | grep -q -- '-race' && race="-race"
 [ -z "$pkg" ] && { echo "VERIFY $d: cannot find package in demo header"; exit 2; }
